@@ -213,18 +213,19 @@ def run(tier, seed):
         b = native_history(cls, d, seed, 2000 if tier == 'quick' else 200000)
         bounded.append(b)
         ce = b.get('counterexample')
-        if b.get('mismatch') and ce and ce['experiment'] == 'B':
+        if b.get('mismatch') and ce and ce['experiment'] in ('B', 'C'):
             w, c, log = replay_history(ce, os.path.join(d, cls + '@replay'))
             ce['real_warm'], ce['real_cold'], ce['replay_log'] = w, c, log[-1500:]
             if w is not None and w != c:
-                rep.violation(cls + '.history', dict(ce, kind='history', failed_obligations=['%s: result depends on what was evaluated before a parameter change' % ce['function']]))
+                rep.violation(cls + '.history', dict(ce, kind='history', failed_obligations=['%s: result depends on what was evaluated before (%s)' % (ce['function'], 'a parameter change' if ce['experiment'] == 'B' else 'another point')]))
             else:
                 rep.undecide('%s: native history experiment found a mismatch the real library does not reproduce (%s)' % (cls, log[-200:]))
         elif b.get('mismatch'):
             rep.violation(cls + '.history', {'function': cls + ' evaluators', 'detail': b, 'failed_obligations': ['history independence (native, random cache states)']}, no_input=True)
         elif b.get('error') or not b.get('evaluations'):
             rep.undecide('%s: native history experiment did not run (%s)' % (cls, str(b.get('error'))[-300:]))
-    cov = {'obligations': n_dis + len(rep.violations) + len(rep.undecided) + len(rep.known_hits), 'discharged': n_dis,
+    cov = {'obligations': n_dis + len(rep.violations) + len(rep.undecided), 'discharged': n_dis,   # obligations that fail as recorded known findings are counted under known_finding_obligations only
+          
            'checker_cmd': results[0][1].cmd if results else 'n/a', 'trusted_base': TRUSTED,
            'functions_under_contract': sorted({j[2].cname for j, r in results}), 'functions_not_under_contract': not_under,
            'per_function': per_fn, 'two_safety': two_safety, 'static_scan': static_notes, 'bounded': bounded + static_ok,
@@ -243,7 +244,7 @@ def vector_index_check(rep, d, tier, only=None):
     -> (per_function, bounded_info)"""
     _, _, cat = xreg.extract_registry(os.path.join(SRC, 'masa_core.cpp'))
     jobs, per, binfo = [], [], []
-    for cls in cat + ['cp_normal']:
+    for cls in sorted(set(cat) | {'cp_normal'}, key=lambda c: (cat + ['cp_normal']).index(c)):
         if cls in ctorcheck.FIXTURES or cls in ctorcheck.SPECIAL:
             continue
         src, hdr, decl, regs, vecs = class_info(cls)
@@ -316,16 +317,16 @@ HIST_REPLAY = r"""
 namespace MASA { void masa_exit(int c) { std::printf("masa_exit(%%d)\n", c); std::exit(c); } }
 using namespace MASA;
 int main() {
-  /* history: set the parameters, evaluate once (warm-up), change ONE registered parameter, evaluate again ... */
+  /* history: set the parameters, evaluate once (warm-up, experiment B: same point, C: another point), B: change ONE registered parameter, evaluate again ... */
   %(cls)s<long double> o; o.init_var();
 %(sets)s
-  (void) o.%(method)s(%(args)s);
-  o.set_var("%(pname)s", %(pnew)sL);
+  (void) o.%(method)s(%(wargs)s);
+  %(chg_o)s
   long double rw = o.%(method)s(%(args)s);
   /* ... versus a fresh object holding the same final parameters */
   %(cls)s<long double> c; c.init_var();
 %(csets)s
-  c.set_var("%(pname)s", %(pnew)sL);
+  %(chg_c)s
   long double rc = c.%(method)s(%(args)s);
   std::printf("WARM %%.21Lg\nCOLD %%.21Lg\n", rw, rc);
   return rw == rc ? 0 : 1;
@@ -357,9 +358,11 @@ def native_history(cls, d, seed, N):
     o.append('    ' + ' '.join('%s *= (Sc)(1.0 + 0.3 * (2.0 * drand48() - 1.0));' % m for m in rl))
     o.append('    Sc x = %s, y = %s;' % (bx, by))
     for fi, f in enumerate(evs):
-        o.append('    { rc_(); Sc r1 = %s(x, y); rc_(); Sc r2 = %s(x, y); n++; if (!(r1 == r2) && !(r1 != r1 && r2 != r2)) { if (!bad) dump("A", %d, -1, 0, x, y, r1, r2); bad++; } }' % (f.cname, f.cname, fi))
+        o.append('    { Sc x0 = %s, y0 = %s; (void)%s(x0, y0); Sc rw = %s(x, y); rc_(); Sc rcold = %s(x, y); n++;'
+                 ' if (!(rw == rcold) && !(rw != rw && rcold != rcold)) { if (!bad) { dump("C", %d, -1, 0, x, y, rw, rcold); printf("WARMARGS %%.21Lg %%.21Lg\\n", x0, y0); } bad++; } }' % (bx, by, f.cname, f.cname, f.cname, fi))
         o.append('    { int k = (int)(lrand48() %% %d); Sc old = *regp[k]; (void)%s(x, y); Sc nv = old * (Sc)(1.0 + 0.2 * (drand48() - 0.5)); *regp[k] = nv; Sc rw = %s(x, y); rc_(); Sc rcold = %s(x, y); *regp[k] = old; n++;'
                  ' if (!(rw == rcold) && !(rw != rw && rcold != rcold)) { if (!bad) dump("B", %d, k, nv, x, y, rw, rcold); bad++; } }' % (len(rl), f.cname, f.cname, f.cname, fi))
+        o.append('    { rc_(); Sc r1 = %s(x, y); rc_(); Sc r2 = %s(x, y); n++; if (!(r1 == r2) && !(r1 != r1 && r2 != r2)) { if (!bad) dump("A", %d, -1, 0, x, y, r1, r2); bad++; } }' % (f.cname, f.cname, fi))
     o.append('  } printf("DONE %ld %ld\\n", n, bad); return 0; }')
     open(os.path.join(cd, 'n2.c'), 'w').write('\n'.join(o) + '\n')
     rc, out, s, to = run_cmd(['gcc', '-O1', '-w', '-I', LIB, '-I', CONTRACTS, 'n2.c', '-o', 'n2', '-lm'], cd, 300)
@@ -367,9 +370,9 @@ def native_history(cls, d, seed, N):
         return {'function': cls, 'label': 'bounded', 'error': out[-800:]}
     rc, out, s, to = run_cmd([os.path.join(cd, 'n2'), str(seed), str(N)], cd, 900)
     m = re.search(r'DONE (\d+) (\d+)', out)
-    res = {'function': cls + ' evaluators (native history experiments A: random cache states, B: warm-up / one parameter changed / compare with cold)',
+    res = {'function': cls + ' evaluators (native history experiments A: random cache states, B: warm-up / one parameter changed / compare with cold, C: warm-up at another point / compare with cold)',
            'label': 'bounded (never counted as proved)', 'evaluations': int(m.group(1)) if m else 0,
-           'mismatch': int(m.group(2)) if m else None, 'bound': '%d random parameter/point draws x %d evaluators x 2 experiments, bit-equal results required' % (N, len(evs)),
+           'mismatch': int(m.group(2)) if m else None, 'bound': '%d random parameter/point draws x %d evaluators x 3 experiments, bit-equal results required' % (N, len(evs)),
            'first': (re.findall(r'MISMATCH.*', out) or [''])[0]}
     mm = re.search(r'MISMATCH (\w) (\d+) (-?\d+) (\S+) (\S+) (\S+) (\S+) (\S+)((?: \S+)*)', out)
     if mm:
@@ -379,6 +382,8 @@ def native_history(cls, d, seed, N):
         res['counterexample'] = {'experiment': mm.group(1), 'class': cls, 'source': src, 'method': f.name, 'function': f.cname, 'args': [mm.group(5), mm.group(6)],
                                  'params': {names.get(m_, m_): v for m_, v in zip(rl, vals)}, 'changed_param': names.get(rl[k], rl[k]) if k >= 0 else None, 'new_value': mm.group(4),
                                  'native_warm': mm.group(7), 'native_cold': mm.group(8)}
+        wa = re.search(r'WARMARGS (\S+) (\S+)', out)
+        res['counterexample']['warm_args'] = [wa.group(1), wa.group(2)] if wa else res['counterexample']['args']
     return res
 
 
@@ -396,8 +401,10 @@ def replay_history(ce, workdir):
     os.makedirs(workdir, exist_ok=True)
     sets = '\n'.join('  o.set_var("%s", %sL);' % (k, numeric._ld(v)) for k, v in ce['params'].items())
     args = ', '.join(numeric._ld(a) + 'L' for a in ce['args'])
+    chg = 'X.set_var("%s", %sL);' % (ce['changed_param'], numeric._ld(ce['new_value'])) if ce.get('changed_param') else ''
     prog = HIST_REPLAY % {'cls': ce['class'], 'sets': sets, 'csets': sets.replace('  o.', '  c.'), 'method': ce['method'], 'args': args,
-                          'pname': ce['changed_param'], 'pnew': numeric._ld(ce['new_value'])}
+                          'wargs': ', '.join(numeric._ld(a) + 'L' for a in ce.get('warm_args', ce['args'])),
+                          'chg_o': chg.replace('X.', 'o.'), 'chg_c': chg.replace('X.', 'c.')}
     open(os.path.join(workdir, 'replay.cpp'), 'w').write(prog)
     srcs = [os.path.join(SRC, ce['source']), os.path.join(SRC, 'masa_class.cpp')]
     rc, out, s, to = run_cmd(['g++', '-O0', '-w', '-I', SRC, '-I', REPO, '-DHAVE_CONFIG_H', 'replay.cpp'] + srcs + ['-o', 'replay'], workdir, 600)
@@ -424,7 +431,8 @@ def replay(path):
         if w is None:
             print('replay could not run')
             return EXIT_UNDECIDED
-        print('real library, %s::%s%s: after warm-up + set_var(%s) -> %s ; fresh object with the same parameters -> %s' % (p['class'], p['method'], tuple(p['args']), p['changed_param'], w, c))
+        print('real library, %s::%s%s: after warm-up at %s%s -> %s ; fresh object with the same parameters -> %s' % (
+            p['class'], p['method'], tuple(p['args']), tuple(p.get('warm_args', p['args'])), ' + set_var(%s)' % p['changed_param'] if p.get('changed_param') else '', w, c))
         return EXIT_VIOLATION if w != c else 0
     print('replay file carries no concrete input (no-failing-input-found); failed obligation(s): %s of %s' % (p.get('failed_obligations'), p.get('function')))
     print((p.get('verifier_output') or '')[-3000:])
